@@ -46,6 +46,11 @@ fn main() {
     core::install_panic_hook();
     match args[1].as_str() {
         "cfg" => println!("{}", cfg_name()),
+        "c16-case" => {
+            // full outcome of one corpus case in this configuration
+            let idx: u64 = args[3].parse().expect("index");
+            println!("{}", props::c16::outcome(&args[2], idx));
+        }
         "run" => {
             let prop = args[2].clone();
             let tier = arg_value(&args, "--tier").unwrap_or_else(|| "quick".into());
